@@ -3,9 +3,12 @@
 import glob, json, os, re, shutil, subprocess, sys
 VERIF = os.path.dirname(os.path.dirname(os.path.abspath(__file__)))
 src = "/tmp/refac"
-only = sys.argv[1:]
-for pf in sorted(glob.glob(os.path.join(src, "C*", "out", "R*.patch.diff"))):
-    prop = pf.split("/")[3]
+only = [a for a in sys.argv[1:] if not a.startswith("/")]
+for a in sys.argv[1:]:
+    if a.startswith("/"):
+        src = a
+for pf in sorted(glob.glob(os.path.join(src, "C*", "out", "[RS]*.patch.diff"))):
+    prop = os.path.basename(os.path.dirname(os.path.dirname(pf)))
     which = os.path.basename(pf).split(".")[0]
     sid = f"{prop}-{which}"
     if only and prop not in only and sid not in only:
